@@ -189,6 +189,9 @@ Theorem C13_src_twisted_connection_lost_is_model : forall k s,
   else s.
 Proof. exact tw_connection_lost_src_eq. Qed.
 
+Theorem C13_src_asyncio_close_start_is_model : forall s, cst s = CQueued -> run_close s = ClientSession_close_start s.
+Proof. exact close_start_src_eq. Qed.
+
 Print Assumptions C13_asyncio_finished_forever.
 Print Assumptions C13_asyncio_close_not_connected.
 Print Assumptions C13_asyncio_P1.
@@ -209,3 +212,4 @@ Print Assumptions C13_legacy_refused_attempt.
 Print Assumptions C13_legacy_reconnects.
 Print Assumptions C13_src_asyncio_connection_lost_is_model.
 Print Assumptions C13_src_twisted_connection_lost_is_model.
+Print Assumptions C13_src_asyncio_close_start_is_model.
